@@ -168,8 +168,8 @@ def finish(prop, a, meta, seed, nshards, known, results, errors, t0) -> int:
         else:
             notes.append(f"known finding {k['signature']} no longer reproduces from its stored example; not tolerated")
 
-    replay_dir = VERIF / "replay"
-    replay_dir.mkdir(exist_ok=True)
+    replay_dir = Path(os.environ.get("SPIL_VERIF_REPLAY_DIR") or (VERIF / "replay"))
+    replay_dir.mkdir(parents=True, exist_ok=True)
     vio_out = []
     for sig, v in sorted(violations.items()):
         h = hashlib.sha1(sig.encode()).hexdigest()[:10]
